@@ -184,12 +184,19 @@ def correspondence(env: Env, out: Outcome, n: int) -> None:
                 el = rng.choice([0, 0.5, 1, 2.5, 5, 10, 100])
                 e = rng.randrange(10)
                 ops.append(f"next {cs} {ws} {ss} {q(el)} {attempts} {e} {u}")
+                first = fmt(pol.next(el, attempts, mk_exc(e), seed=seed))
+                # a policy object is evaluated once per failure of every invocation of its step: the SAME object must answer the same again
                 exp.append(fmt(pol.next(el, attempts, mk_exc(e), seed=seed)))
+                if first != exp[-1]:
+                    out.violations.append(Violation(f"{env.prop}/policy_object_not_reusable", f"next({el}, {attempts}, e{e}, seed={seed}) of one policy object ({cs} | {ws} | {ss}) answered {first} and then {exp[-1]}", {"op": ops[-1]}))
                 out.count("next:" + ("none" if exp[-1] == "none" else "delay"))
             elif kind < 0.8:
                 w, ws = gen_wait(rng)
                 ops.append(f"wait {ws} {attempts} {u}")
+                first = q(w(attempts, seed=seed))
                 exp.append(q(w(attempts, seed=seed)))
+                if first != exp[-1]:
+                    out.violations.append(Violation(f"{env.prop}/wait_object_not_reusable", f"wait strategy {ws} evaluated twice with (attempts={attempts}, seed={seed}) gave {first} and then {exp[-1]}", {"op": ops[-1]}))
                 out.count("wait:" + ws.split()[0])
             elif kind < 0.92:
                 s, ss = gen_stop(rng)
